@@ -310,10 +310,35 @@ fn c06_cli(rep: &mut Report, origin: &str, src: &str, ast: &AST, cfg: &Config, d
     if std::fs::create_dir_all(d.join("out1")).is_err() || std::fs::create_dir_all(d.join("out2")).is_err() {
         return;
     }
-    let input = d.join("prog.v1.fml");
+    // input names: several dots, no extension, upper case, a blank, a dotted directory
+    let (in_name, in_stem): (&str, &str) = match idx % 6 {
+        0 => ("prog.v1.fml", "prog.v1"),
+        1 => ("noextension", "noextension"),
+        2 => ("UPPER.FML", "UPPER"),
+        3 => ("with space.fml", "with space"),
+        4 => ("dotted.dir/inner.prog.fml", "inner.prog"),
+        _ => ("x.fml", "x"),
+    };
+    let input = d.join(in_name);
+    if let Some(parent) = input.parent() {
+        let _ = std::fs::create_dir_all(parent);
+    }
     if std::fs::write(&input, src).is_err() {
         return;
     }
+    // stdin is delivered whole or in small chunks
+    let chunk: Option<usize> = match idx % 4 {
+        0 => Some(1 + (idx as usize % 13)),
+        1 => Some(4096),
+        _ => None,
+    };
+    let with_stdin = |spec: cli::Spec<'static>, data: &[u8]| -> cli::Spec<'static> {
+        let s = spec.stdin(data);
+        match chunk {
+            Some(n) => s.chunked(n.max(data.len() / 300)),
+            None => s,
+        }
+    };
     let replay = json!({"check":"C06","src":src,"config":format!("{:?}", cfg),"via":"cli"});
     rep.evaluations += 1;
     // reference behaviour: fml run
@@ -354,18 +379,24 @@ fn c06_cli(rep: &mut Report, origin: &str, src: &str, ast: &AST, cfg: &Config, d
             args.push("--output-dir".into());
             args.push(d.join("out1").to_str().unwrap().into());
             // name derived from the input (or `ast` for stdin) + the format's extension
-            Some(d.join("out1").join(if cfg.parse_in == 0 { format!("prog.v1.{}", fname) } else { format!("ast.{}", fname) }))
+            Some(d.join("out1").join(if cfg.parse_in == 0 { format!("{}.{}", in_stem, fname) } else { format!("ast.{}", fname) }))
         }
         _ => None,
     };
     if cfg.parse_fmt == 0 {
-        args.push("--format".into());
-        args.push(if idx % 2 == 0 { fname.to_uppercase() } else { fname.to_string() });
+        // every accepted spelling of the format, either flag name
+        args.push(if idx % 3 == 0 { "--ast".into() } else { "--format".into() });
+        let spell: Vec<&str> = match fname {
+            "lisp" => vec!["lisp", "LISP", "sexp", "sexpr", "Sexp"],
+            "json" => vec!["json", "JSON", "Json"],
+            _ => vec!["yaml", "YAML", "Yaml"],
+        };
+        args.push(spell[(idx as usize / 3) % spell.len()].to_string());
     }
     let argv: Vec<&str> = args.iter().map(|s| s.as_str()).collect();
     let mut spec = cli::Spec::new(&argv);
     if cfg.parse_in == 1 {
-        spec = spec.stdin(src.as_bytes());
+        spec = with_stdin(spec, src.as_bytes());
     }
     let p = cli::run(spec);
     let parse_rejected_by_run = !run.success() && run.stdout.is_empty() && real::parse(src).is_err();
@@ -411,8 +442,12 @@ fn c06_cli(rep: &mut Report, origin: &str, src: &str, ast: &AST, cfg: &Config, d
     }
     let explicit = cfg.compile_fmt == 0 || compile_input.is_none() || ext.to_lowercase() != fname;
     if explicit {
-        args.push("--input-format".into());
-        args.push(fname.to_string());
+        args.push(if idx % 4 == 1 { "--ast".into() } else { "--input-format".into() });
+        args.push(if idx % 2 == 0 { fname.to_uppercase() } else { fname.to_string() });
+    }
+    if idx % 5 == 2 {
+        args.push("--output-format".into());
+        args.push(["bytes", "bc", "bytecode", "BYTES"][(idx as usize / 5) % 4].to_string());
     }
     let bc_path = match cfg.compile_out {
         0 => {
@@ -438,7 +473,7 @@ fn c06_cli(rep: &mut Report, origin: &str, src: &str, ast: &AST, cfg: &Config, d
     let argv: Vec<&str> = args.iter().map(|s| s.as_str()).collect();
     let mut spec = cli::Spec::new(&argv);
     if compile_input.is_none() {
-        spec = spec.stdin(&ast_text);
+        spec = with_stdin(spec, &ast_text);
     }
     let c = cli::run(spec);
     rep.conclusive += 1;
@@ -503,7 +538,7 @@ fn c06_cli(rep: &mut Report, origin: &str, src: &str, ast: &AST, cfg: &Config, d
         };
         cli::run(cli::Spec::new(&["execute", pth.to_str().unwrap()]))
     } else {
-        cli::run(cli::Spec::new(&["execute"]).stdin(&bc))
+        cli::run(with_stdin(cli::Spec::new(&["execute"]), &bc))
     };
     if e.timed_out {
         rep.skip("cli-watchdog");
@@ -658,7 +693,17 @@ pub fn c06(ctx: &Ctx, rep: &mut Report) {
         if src.len() > 40 {
             rep.nontrivial(hash_str(&src));
         }
-        if i % cli_every == 0 {
+        // memory guard: the reference machine (which caps array sizes) must be able to run the
+        // compiled program before the real VM is asked to
+        let too_big = i % cli_every == 0
+            && (gen::has_huge_array_size(&parsed, 100_000)
+                || match real::compile(&parsed).and_then(|p| real::serialize(&p)).ok().and_then(|b| super::super::bcfmt::read(&b).ok()) {
+                    Some(prog) => matches!(super::super::refvm::run_prog(&prog, 300_000).status, super::super::refvm::Status::Ambiguous(_)),
+                    None => false,
+                });
+        if too_big {
+            rep.skip("huge-array (memory guard)");
+        } else if i % cli_every == 0 {
             // programs that do not terminate within a logical step budget are not sent to the CLI
             let probe = real::pipeline_from_ast(&parsed, 300_000, false);
             if probe.run.as_ref().map(|r| r.capped).unwrap_or(false) {
